@@ -12,33 +12,43 @@
  * names the case (the oracle is the same for all cases). */
 #include "c19_common.h"
 #include "automations.h"        /* contracts/automations.h: setSlot contract (checked by h_setSlot, used by h_handleMidi) */
-#ifdef NOSPLIT
-#undef C19_SPLIT1
+/* index arguments of the two-index methods: default = every in-range pair as a constant + the out-of-range
+ * representatives (-1, 6 resp. 3, INT_MIN, INT_MAX); -DANY_INDEX = the symbolic value itself (every int) */
 #undef C19_SPLIT2
-#define C19_SPLIT1(i, CALL) do { const int I = (i); CALL; } while(0)
+#ifdef ANY_INDEX
 #define C19_SPLIT2(i, j, CALL) do { const int I = (i), J = (j); CALL; } while(0)
+#else
+#define C19_SPLIT2(i, j, CALL) C19_SPLIT2C(i, j, CALL)
 #endif
 
 static struct c19_q pre, post;
 static struct lq_view q0, q1;
+static struct c19_deep d0, d1;        /* complete state before / after (contracts/automations.h) */
 
 static void begin(void)
 {
     c19_setup();
     c19_snap(&pre);
+    c19_deep_snap(&d0);
     V_ASSUME(c19_inv(&pre));              /* induction hypothesis */
-    q0 = lq_abstract(pre.rank, NS, pre.k);
+    q0 = lq_abstract(pre.rank, CN, pre.k);
 }
 static void end(void)
 {
     c19_snap(&post);
+    c19_deep_snap(&d1);
     V_ASSERT(c19_inv(&post), "C19 invariant LQ && UNIQ && NRPN_RANGE preserved");
-    q1 = lq_abstract(post.rank, NS, post.k);
+    V_ASSERT(d1.nslots == d0.nslots && d1.per_slot == d0.per_slot && d1.slots == d0.slots && d1.backend == d0.backend,
+             "C19 configuration of the manager (nslots, per_slot, slots, backend) unchanged");
+#ifdef SYMCFG
+    V_ASSERT(c19_beyond_untouched(&d0, &d1), "C19 slots beyond nslots / automations beyond per_slot are never written or addressed");
+#endif
+    q1 = lq_abstract(post.rank, CN, post.k);
     V_ASSERT(REC.n_foreign == 0, "C19 every message goes to the address of one of the manager's parameters");
     V_ASSERT(REC.emit_mismatch == 0, "C19 what is emitted is the message just built");
     V_ASSERT(REC.n_emit == (IN.has_backend ? REC.n_msg : 0), "C19 every built message is emitted once (if a backend is set)");
 }
-static bool in_range(int i) { return i >= 0 && i < NS; }
+static bool in_range(int i) { return i >= 0 && i < CN; }
 
 /* slot i was not driven: no message of its parameters, slot value untouched */
 static bool not_driven(int i) { return c19_msgs_of_slot(i) == 0 && post.cur[i] == pre.cur[i]; }
@@ -80,7 +90,7 @@ void h_handleMidi(void)
     struct lq_ctl ctl = lq_controller(reg1, ch, cc);
     bool bound[NS]; bool any_bound = false;
     for(int i = 0; i < NS; i++) {
-        bound[i] = ctl.kind == LQ_CTL_CC ? pre.cc[i] == ctl.id : ctl.kind == LQ_CTL_NRPN ? pre.nrpn[i] == ctl.id : false;
+        bound[i] = i >= CN ? false : ctl.kind == LQ_CTL_CC ? pre.cc[i] == ctl.id : ctl.kind == LQ_CTL_NRPN ? pre.nrpn[i] == ctl.id : false;
         any_bound = any_bound || bound[i];
     }
 #if defined(CASE_CC_BOUND)
@@ -142,7 +152,7 @@ void h_enqueue(void)
     bool waiting = pre.rank[s] != -1, is_bound = pre.cc[s] != -1 || pre.nrpn[s] != -1;
     V_COVER(learn && !waiting && !is_bound && pre.k >= 1);
     V_COVER(learn && waiting);
-    C19_SPLIT1(s, AutomationMgr_createBinding_tail(&M, I, C19_PATHS[0][0], learn));
+    C19_SPLIT1C(s, AutomationMgr_createBinding_tail(&M, I, C19_PATHS[0][0], learn));
     end();
     struct lq_view app = lq_append(&q0, s);
     if(!learn || waiting)
@@ -166,11 +176,9 @@ static void frame_common(void)
 
 void h_setSlot(void)           /* setSlot(i, v) against its contract (contracts/automations.h): drives exactly slot i */
 {
-    static struct c19_deep d0, d1;
     begin();
-    c19_deep_snap(&d0);
 #ifdef FIXED_SLOT
-    V_COVER(IN.slot == FIXED_SLOT && c19_expected_msgs(FIXED_SLOT) == PS && IN.has_backend);
+    V_COVER(IN.slot == FIXED_SLOT && c19_expected_msgs(FIXED_SLOT) == (unsigned)CPS && IN.has_backend);
 #endif
 #ifdef FIXED_SLOT               /* one obligation per in-range slot index (constant: cheap symbolic execution) */
     V_ASSUME(IN.slot == FIXED_SLOT);
@@ -184,7 +192,6 @@ void h_setSlot(void)           /* setSlot(i, v) against its contract (contracts/
     default: V_ASSUME(0);
     }
 #endif
-    c19_deep_snap(&d1);
     frame_common();
     c19_check_setSlot_contract(&d0, &d1, IN.slot, IN.f);
     for(int i = 0; i < NS; i++)
@@ -194,7 +201,7 @@ void h_setSlot(void)           /* setSlot(i, v) against its contract (contracts/
 void h_setSlotSub(void)
 {
     begin();
-    V_COVER(in_range(IN.slot) && IN.sub >= 0 && IN.sub < PS && (IN.a_used[IN.slot][IN.sub] & 1) && IN.a_type[IN.slot][IN.sub] == 'T');
+    V_COVER(in_range(IN.slot) && IN.sub >= 0 && IN.sub < CPS && (IN.a_used[IN.slot][IN.sub] & 1) && IN.a_type[IN.slot][IN.sub] == 'T');
     C19_SPLIT2(IN.slot, IN.sub, AutomationMgr_setSlotSub(&M, I, J, c19_f(IN.f)));
     frame_common();
     for(int i = 0; i < NS; i++) {
@@ -207,7 +214,7 @@ void h_setSlotSub(void)
 
 #define FRAME_NO_MSG(NAME, CALL) \
 void NAME(void) { \
-    begin(); V_COVER(in_range(IN.slot) && IN.sub >= 0 && IN.sub < PS); \
+    begin(); V_COVER(in_range(IN.slot) && IN.sub >= 0 && IN.sub < CPS); \
     CALL; \
     frame_common(); \
     for(int i = 0; i < NS; i++) V_ASSERT(not_driven(i), "C19 frame: no slot driven"); \
